@@ -239,3 +239,46 @@ def expand_at(fn: ast.AST, expr: ast.expr, at: ast.stmt, depth: int = 8, _cfg=No
     if not mp:
         return e
     return ast.fix_missing_locations(_Subst(mp).visit(e))
+
+
+_NEG = {ast.Lt: ast.GtE, ast.LtE: ast.Gt, ast.Gt: ast.LtE, ast.GtE: ast.Lt, ast.Eq: ast.NotEq, ast.NotEq: ast.Eq, ast.Is: ast.IsNot,
+        ast.IsNot: ast.Is, ast.In: ast.NotIn, ast.NotIn: ast.In}
+
+
+def negate(test: ast.expr) -> ast.expr:
+    """The negation of a test, pushed inwards (comparison operators flipped, De Morgan), in canonical spelling."""
+    import copy
+    from .src import _CanonCompare
+    t = test
+    if isinstance(t, ast.UnaryOp) and isinstance(t.op, ast.Not):
+        return copy.deepcopy(t.operand)
+    if isinstance(t, ast.Compare) and len(t.ops) == 1:
+        new = ast.Compare(left=copy.deepcopy(t.left), ops=[_NEG[type(t.ops[0])]()], comparators=[copy.deepcopy(t.comparators[0])])
+        return _CanonCompare().visit(ast.fix_missing_locations(ast.copy_location(new, t)))
+    if isinstance(t, ast.BoolOp):
+        new = ast.BoolOp(op=ast.Or() if isinstance(t.op, ast.And) else ast.And(), values=[negate(v) for v in t.values])
+        return ast.fix_missing_locations(ast.copy_location(new, t))
+    return ast.fix_missing_locations(ast.copy_location(ast.UnaryOp(op=ast.Not(), operand=copy.deepcopy(t)), t))
+
+
+def holds_text(fn, test: ast.expr, branch: bool, stop=()) -> str:
+    """Text of the condition that holds on the given branch of `if test`, expanded through single definitions."""
+    e = expand(fn, test, stop=stop)
+    return ast.unparse(e if branch else negate(e))
+
+
+def conditions_at(fn, node, pm=None, within=None, normal=True, stop=()) -> List[ast.expr]:
+    """The tests that hold where `node` executes (outermost first), each in positive canonical form: the else-branch of `if c` and
+    the code after the guard clause `if c: <exit>` both contribute `not c` with the negation pushed inwards.  `within` restricts
+    to guards inside that statement (e.g. a loop)."""
+    out = []
+    inside = None if within is None else {id(x) for x in ast.walk(within)}
+    for g, br in guards_of(fn, node, pm, normal=normal):
+        if not isinstance(g, ast.If) or br not in ("true", "false"):
+            continue
+        g0 = getattr(g, "_orig", g)
+        if inside is not None and id(g0) not in inside:
+            continue
+        e = expand(fn, g.test, stop=stop)
+        out.append(e if br == "true" else negate(e))
+    return out
